@@ -440,6 +440,88 @@ pub fn run(cfg: &Cfg) -> Report {
         }
     });
     crate::watch::guarded("stack: capacities and iterators near usize::MAX, non-fused / endless / loosely hinted iterators", || huge_scenarios(&mut rep));
+    crate::watch::guarded("stack: the state-level insertion helpers (with_push, with_stack_push, push_onto, with_replace, replace_on) on stacks at, below and above a lowered maximum", || helper_scenarios(&mut rep));
     rep.notes.push(format!("exhaustive part: all histories of length 1..={maxlen_exh} over a {k}-operation alphabet, initial capacities 0..3 ({n_exh} histories); random part: {n_rand} histories of length <= {rand_len}"));
     rep
+}
+
+/// Every public way of inserting into a stack *of a state* (`HasStack::with_push`, `InstructionResult::with_stack_push`,
+/// `PushOnto::push_onto`, `HasStack::with_replace`, `PushOnto::replace_on`) is an insertion in the sense of the property:
+/// it gives the verdict `Stack::push` gives on the same stack (tied to the model by the histories above), a success never
+/// leaves the stack above its current maximum - also when that maximum was lowered below the present size -, the pushed
+/// value is on top of the untouched rest, and a refused push hands back the untouched contents with an overflow.
+fn helper_scenarios(r: &mut Report) {
+    use push::error::into_state::IntoState;
+    use push::error::InstructionResult;
+    use push::push_vm::push_state::PushState;
+    use push::push_vm::stack::{PushOnto, StackPush};
+    use push::push_vm::HasStack;
+    let mut fails: Vec<String> = vec![];
+    let res = std::panic::catch_unwind(std::panic::AssertUnwindSafe(|| {
+        let mut out: Vec<String> = vec![];
+        let mut n = 0u64;
+        for size in 0usize..=5 { for max in 0usize..=6 {
+            let make = || -> PushState {
+                let mut s = PushState::builder().with_max_stack_size(16).with_no_program().with_instruction_step_limit(1).build();
+                for v in 0..size as i64 { s.stack_mut::<i64>().push(10 + v).expect("roomy"); }
+                s.stack_mut::<i64>().set_max_stack_size(max);
+                s
+            };
+            let ints = |s: &PushState| -> Vec<i64> { let st = s.stack::<i64>(); let mut c = st.clone(); let mut v = vec![]; while let Ok(x) = c.pop() { v.push(x); } v };
+            let before = ints(&make());
+            // the reference verdict: `Stack::push` itself
+            let mut reference = make();
+            let ref_ok = reference.stack_mut::<i64>().push(99).is_ok();
+            let ref_after = ints(&reference);
+            if ref_ok != (size < max) { out.push(format!("Stack::push on size={size} max={max}: ok = {ref_ok}")); }
+            type R = InstructionResult<PushState, StackError>;
+            let paths: Vec<(&str, Box<dyn Fn() -> R>)> = vec![
+                ("with_push", Box::new(|| make().with_push(99i64))),
+                ("with_stack_push", Box::new(|| { let r: R = Ok(make()); r.with_stack_push(99i64) })),
+                ("push_onto", Box::new(|| { let v: Result<i64, StackError> = Ok(99); v.push_onto(make()) })),
+                ("with_replace(0, _)", Box::new(|| make().with_replace(0, 99i64))),
+                ("replace_on(0, _)", Box::new(|| { let v: Result<i64, StackError> = Ok(99); v.replace_on(0, make()) })),
+            ];
+            for (name, f) in &paths {
+                n += 1;
+                match f() {
+                    Ok(s) => {
+                        let after = ints(&s);
+                        if !ref_ok || after != ref_after || after.len() > max || s.stack::<i64>().max_stack_size() != max {
+                            out.push(format!("{name} on an integer stack of size {size} with maximum {max} (lowered after the values were pushed) succeeds and leaves {after:?}; Stack::push on the same stack: ok = {ref_ok}, leaving {ref_after:?}"));
+                        }
+                    }
+                    Err(e) => {
+                        let overflow = matches!(e.error(), StackError::Overflow { .. });
+                        let s = e.into_state();
+                        if ref_ok || !overflow || ints(&s) != before {
+                            out.push(format!("{name} on an integer stack of size {size} with maximum {max} fails (overflow: {overflow}) leaving {:?}; before: {before:?}; Stack::push on the same stack: ok = {ref_ok}", ints(&s)));
+                        }
+                    }
+                }
+            }
+            // replacing k >= 1 values: a success never leaves the stack above its maximum, and what is left is the rest under the new value
+            for k in 1usize..=3 {
+                for (name, res) in [("with_replace", make().with_replace(k, 99i64)), ("replace_on", { let v: Result<i64, StackError> = Ok(99); v.replace_on(k, make()) })] {
+                    n += 1;
+                    if let Ok(s) = res {
+                        let after = ints(&s);
+                        let mut want = vec![99i64]; want.extend(before.iter().skip(k));
+                        if after.len() > max || k > size || after != want {
+                            out.push(format!("{name}({k}, _) on an integer stack {before:?} with maximum {max} succeeds and leaves {after:?}"));
+                        }
+                    }
+                }
+            }
+        } }
+        (out, n)
+    }));
+    match res {
+        Ok((v, n)) => { r.hit_n("state-level insertion helper calls on stacks at / below / above a lowered maximum", n); fails.extend(v.into_iter().take(8)); }
+        Err(_) => fails.push("a state-level insertion helper panicked".into()),
+    }
+    r.case("stack state-level helpers", true);
+    for f in fails {
+        r.violate(json!({"case": "stack helpers", "real": f, "what": "an insertion through a state-level helper must behave like Stack::push: refused with an overflow (contents untouched) when the stack is at or above its current maximum, never leaving the stack larger than that maximum"}));
+    }
 }
